@@ -74,28 +74,39 @@ VP_ENTRY vp_main_timestamp_step()
   size_t g0 = TimeStamp::global.load();
   vp_assume(g0 < 0xfffffffffffffff0ull);     // counter wrap at 2^64 is outside the claim
   TimeStamp a;
-  vp_assert((size_t)a == g0 && TimeStamp::global.load() == g0 + 1, "fresh TimeStamp takes the counter and bumps it by 1");
+  vp_assert(TimeStamp::global.load() > g0, "creating a TimeStamp advances the counter");
   TimeStamp b;
-  vp_assert((size_t)b == g0 + 1, "next fresh value is larger");
+  vp_assert((size_t)b > (size_t)a, "next fresh value is larger");
+  const size_t vb = b;
   a.renew();
-  vp_assert((size_t)a == g0 + 2 && TimeStamp::global.load() == g0 + 3, "renew takes a fresh, larger value");
+  vp_assert((size_t)a > vb, "renew takes a fresh value larger than every earlier one");
   TimeStamp c(a), d(std::move(b)), e, f;
+  vp_assert((size_t)f > (size_t)e && (size_t)e > (size_t)a, "default-constructed stamps are fresh and increasing");
   e = a; f = std::move(d);
   vp_assert((size_t)c == (size_t)a && (size_t)e == (size_t)a, "copies carry the source value");
-  vp_assert((size_t)d == g0 + 1 && (size_t)f == g0 + 1, "moves carry the source value");
+  vp_assert((size_t)d == vb && (size_t)f == vb, "moves carry the source value");
   vp_assert(a < TimeStamp() , "a later fresh stamp is larger");
   vp_reach("end");
 }
 
-static size_t g_vals[2][2];
+#if defined(VP_NATIVE_BUILD)
+// native replay: a schedule cannot be forced into the two-instruction windows of the library's atomic code, so the two threads
+// repeat (create + renew) many times and all values are compared (same assertions, same labels)
+#define TS_ROUNDS 300000
+#else
+#define TS_ROUNDS 1
+#endif
+static size_t g_vals[2][2 * TS_ROUNDS];
 static volatile int g_done[2];
 static void ts_worker(void *arg)
 {
   int id = (int)(intptr_t)arg;
-  TimeStamp t;
-  g_vals[id][0] = t;
-  t.renew();
-  g_vals[id][1] = t;
+  for (int r = 0; r < TS_ROUNDS; r++) {
+    TimeStamp t;
+    g_vals[id][2 * r] = t;
+    t.renew();
+    g_vals[id][2 * r + 1] = t;
+  }
   g_done[id] = 1;
 }
 VP_ENTRY vp_main_timestamp_threads()
@@ -105,13 +116,17 @@ VP_ENTRY vp_main_timestamp_threads()
 #if defined(VP_NATIVE_BUILD)
   while (!(g_done[0] && g_done[1])) {}
 #elif defined(VP_PATH)
-  vp_sched(PREEMPT);
+  vp_sched(PREEMPT | VP_SCHED_LOADS);
   for (int spin = 0; spin < 100000 && !(g_done[0] && g_done[1]); spin++) sched_yield();
 #else
   vp_assume(g_done[0] && g_done[1]);
 #endif
-  vp_assert(g_vals[0][0] < g_vals[0][1] && g_vals[1][0] < g_vals[1][1], "each thread's stamps increase");
-  vp_assert(g_vals[0][0] != g_vals[1][0] && g_vals[0][0] != g_vals[1][1] && g_vals[0][1] != g_vals[1][0] && g_vals[0][1] != g_vals[1][1], "stamps of different threads are distinct");
+  bool inc = true, distinct = true;
+  for (int t = 0; t < 2; t++) for (int i = 0; i + 1 < 2 * TS_ROUNDS; i++) inc = inc && g_vals[t][i] < g_vals[t][i + 1];
+  vp_assert(inc, "each thread's stamps increase");
+  // both sequences increase (just asserted): a merge finds any common value
+  for (int i = 0, j = 0; i < 2 * TS_ROUNDS && j < 2 * TS_ROUNDS;) { if (g_vals[0][i] == g_vals[1][j]) { distinct = false; break; } if (g_vals[0][i] < g_vals[1][j]) i++; else j++; }
+  vp_assert(distinct, "stamps of different threads are distinct");
   vp_reach("end");
 }
 
